@@ -20,6 +20,7 @@ import (
 	"runtime"
 	"sync"
 	"sync/atomic"
+	"time"
 
 	"github.com/shogo82148/goat/x25519"
 	"github.com/shogo82148/goat/x448"
@@ -883,6 +884,66 @@ var c14LowOrder25519 = []string{
 	"dbffffffffffffffffffffffffffffffffffffffffffffffffffffffffffffff",
 }
 
+// c14SymmetrySearch (search mode only: an obligation of the regenerated field programs broke and the streams above
+// found no input): brute force over random key pairs with the DH symmetry X448(a, X448(b, 5)) = X448(b, X448(a, 5))
+// as a CHEAP filter — four ladder runs, no big-number arithmetic — on every core for at most d.  A limb slip that
+// strikes with probability 2^-20 per call (far beyond random differential testing against the 2 ms math/big
+// reference) shows up here within seconds; each disagreement is then resolved with the math/big reference into
+// the (scalar, u) of the call that left the RFC function, and handed to the ordinary x448 case execution.
+// It supports the search for a failing input only; no theorem rests on it.
+func c14SymmetrySearch(seed uint64, d time.Duration, max int) []c14Case {
+	var mu sync.Mutex
+	var out []c14Case
+	var tried int64
+	deadline := time.Now().Add(d)
+	var wg sync.WaitGroup
+	for w := 0; w < runtime.NumCPU(); w++ {
+		wg.Add(1)
+		go func(w int) {
+			defer wg.Done()
+			r := vf.NewRand(seed ^ uint64(w+1)*0x9e3779b97f4a7c15)
+			for i := 0; ; i++ {
+				if i%64 == 0 {
+					mu.Lock()
+					n := len(out)
+					mu.Unlock()
+					if n >= max || time.Now().After(deadline) {
+						return
+					}
+				}
+				a, b := r.Bytes(56), r.Bytes(56)
+				pa, ea := x448.X448(a, basepoint448)
+				pb, eb := x448.X448(b, basepoint448)
+				atomic.AddInt64(&tried, 1)
+				if ea == nil && eb == nil {
+					s1, e1 := x448.X448(a, pb)
+					s2, e2 := x448.X448(b, pa)
+					if e1 == nil && e2 == nil && bytes.Equal(s1, s2) {
+						continue
+					}
+				}
+				for _, kp := range [][2][]byte{{a, basepoint448}, {b, basepoint448}, {a, pb}, {b, pa}} {
+					if kp[1] == nil {
+						continue
+					}
+					want, zero := refX448(kp[0], kp[1])
+					got, err := x448.X448(kp[0], kp[1])
+					if (err != nil) != zero || (err == nil && !bytes.Equal(got, want)) {
+						mu.Lock()
+						out = append(out, c14Case{Kind: "x448", Scalar: kp[0], Point: kp[1], Spec: true, Note: "dh-symmetry-search"})
+						mu.Unlock()
+					}
+				}
+			}
+		}(w)
+	}
+	wg.Wait()
+	c14SymTried = atomic.LoadInt64(&tried)
+	return out
+}
+
+var c14SymTried int64
+
 func runC14(c *vf.Ctx) {
 	// one model call costs ≈ 1.4 s (448·18 limb programs + a 460-multiplication inversion through the
 	// list-based interpreter); the spec ≈ 10 ms; goat + math/big reference ≈ 2 ms.
@@ -1021,6 +1082,11 @@ func runC14(c *vf.Ctx) {
 			sd[i] ^= 4
 			fixed = append(fixed, c14Case{Kind: "newkey", Scalar: sd, Note: "seed-4l-neighbour"})
 		}
+	}
+	if SearchMode() {
+		found := c14SymmetrySearch(c.Seed^0xc14, 40*time.Second, 3)
+		c.Note("search mode: DH-symmetry brute force tried %d key pairs on %d cores, %d call(s) off the RFC function", c14SymTried, runtime.NumCPU(), len(found))
+		fixed = append(fixed, found...)
 	}
 	// structured u: small constant + one-hot bit / byte high part, top byte only, 2^32±d, 2^64±d, 2^(8j)±1.
 	// X25519 always exhaustively (cheap); X448 for the constants {0,1,5,9} in quick, all of 0..16 in thorough
